@@ -652,6 +652,8 @@ def is_wrapper(name):
 
 
 MAXPATH = 14
+# enum aggregates that leave an 'in <Variant>' token on origin paths
+ENUM_AGG_TOKENS = {'std::result::Result', 'std::option::Option', 'std::ops::ControlFlow'}
 
 
 def origins(fn, through_calls='wrappers', extra_wrappers=()):
@@ -712,6 +714,8 @@ def origins(fn, through_calls='wrappers', extra_wrappers=()):
                 elif rv == 'agg':
                     for o in r['ops']:
                         new |= operand_paths(o)
+                    if r.get('adt') and r.get('v') and r['adt'] in ENUM_AGG_TOKENS:
+                        new = {(q + ('in ' + r['v'],))[:MAXPATH] for q in new}
                 elif rv in ('bin',):
                     new = operand_paths(r['a']) | operand_paths(r['b'])
                 elif rv == 'un':
